@@ -12,7 +12,8 @@
   c09_content_length_first, c09_script_name_path_info, c09_query_after_first_qmark_partial;
   well-formed + exact + length-delimited message: c09_fcgi_roundtrip/_e2e/_truncated_never_complete/
   _authorizer, c09_scgi_roundtrip/_e2e, c09_uwsgi_roundtrip/_e2e, c09_cgi_envp_roundtrip,
-  c09_proxy_head_framing/_hop_by_hop/_fields_complete/_decodes_partial, c09_proxy_request;
+  c09_proxy_framing, c09_proxy_chunked_http11, c09_proxy_head_hop_by_hop, c09_proxy_fields_complete,
+  c09_proxy_head_decodes(_partial), c09_proxy_request, c09_te_consumed_not_stored;
   HTTP/2 DATA: c09_h2_data_body, c09_h2_ready_iff_exact.  Correspondence-only: client framing
   (Content-Length / chunked) and network segmentation, temp-file spooling, stream-request-body
   modes, the mod_cgi stdin path, everything about timing.
@@ -22,6 +23,7 @@ import LtVerif.Proofs.FcgiRun
 import LtVerif.Proofs.Scgi
 import LtVerif.Proofs.Proxy
 import LtVerif.Proofs.ProxyHead
+import LtVerif.Proofs.ProxyWf
 import LtVerif.Proofs.CgiE2E
 import LtVerif.Extracted.H1Tables
 import LtVerif.Model.H1Parse
@@ -696,9 +698,9 @@ theorem c09_proxy_fields_complete (c : Proxy.Cfg) (r : Proxy.Req) (line : Bytes)
 /-- the serialisation of the request head is faithful: a receiver following RFC 9112 (request
     line up to CRLF, field lines "name:" OWS value CRLF, empty line) reads back exactly the
     request line, exactly the fields in order, and finds the body right after the empty line.
-    `_partial`: CR-freeness / token names of the fields are hypotheses here — for the client's
-    fields that is the request parser's guarantee (C01), for the values lighttpd generates
-    (Forwarded, X-Forwarded-*) it is checked by the correspondence oracle only. -/
+    `_partial`: CR-freeness / token names of the fields are hypotheses here; they are discharged
+    from the request in `c09_proxy_head_decodes` when proxy.forwarded is off; for a generated
+    "Forwarded" value (proxy.forwarded options) they are checked by the correspondence oracle only. -/
 theorem c09_proxy_head_decodes_partial (line : Bytes) (fs : Proxy.Hdrs) (body : Bytes)
     (hl : cr ∉ line) (hf : ∀ f ∈ fs, Proxy.WfField f) :
     Proxy.decodeHead (Proxy.renderHead line fs ++ body) = some (line, fs, body) :=
@@ -707,6 +709,33 @@ theorem c09_proxy_head_decodes_partial (line : Bytes) (fs : Proxy.Hdrs) (body : 
 example : Proxy.decodeHead (ofString "POST /u HTTP/1.1\r\nHost: h\r\nX: 1\r\n\r\nbody") =
     some (ofString "POST /u HTTP/1.1", [(ofString "Host", ofString "h"), (ofString "X", ofString "1")],
           ofString "body") := by decide
+
+/-- ... and with proxy.forwarded off (the default: no "Forwarded" field is generated) the
+    hypotheses are discharged from the request: if the stored fields are token-named and CR-free
+    and host, proxy host id, peer address, scheme, method and target are CR-free (`HeadWf`, what the
+    request parser and the configuration guarantee), then the head lighttpd builds — Host, framing
+    field, forwarded client fields, X-Forwarded-For / X-Host / X-Forwarded-Host / X-Forwarded-Proto,
+    Connection — re-parses to exactly that request line and those fields, and the receiver finds
+    the body right after it -/
+theorem c09_proxy_head_decodes (c : Proxy.Cfg) (r : Proxy.Req) (hw : Proxy.HeadWf c r)
+    (h0 : c.forwarded = 0) (line : Bytes) (fs : Proxy.Hdrs) (ch : Bool)
+    (h : Proxy.headFields c r = some (line, fs, ch)) (rest : Bytes) :
+    Proxy.decodeHead (Proxy.renderHead line fs ++ rest) = some (line, fs, rest) := by
+  obtain ⟨hl, hf⟩ := Proxy.headFields_wf c r hw h0 line fs ch h
+  exact Proxy.decodeHead_render line fs rest hl hf
+
+set_option maxRecDepth 100000 in
+example : (Proxy.headFields {}
+      { method := ofString "POST", isGetOrHead := false, target := ofString "/u", host := some (ofString "h"),
+        bodyLen := 4, scheme := ofString "http", remoteAddr := ofString "10.0.0.9",
+        headers := [(ofString "X", ofString "1"), (ofString "Content-Length", ofString "4")] }).bind
+      (fun x => Proxy.decodeHead (Proxy.renderHead x.1 x.2.1 ++ ofString "body")) =
+    some (ofString "POST /u HTTP/1.1",
+      [(ofString "Host", ofString "h"), (ofString "X", ofString "1"), (ofString "Content-Length", ofString "4"),
+       (ofString "X-Forwarded-For", ofString "10.0.0.9"), (ofString "X-Host", ofString "h"),
+       (ofString "X-Forwarded-Host", ofString "h"), (ofString "X-Forwarded-Proto", ofString "http"),
+       (ofString "Connection", ofString "close")],
+      ofString "body") := by decide
 
 /-- the whole proxied request under EVERY arrival schedule of the body: what is queued for the
     backend is the serialised head (the one `c09_proxy_framing` / `_hop_by_hop` /
